@@ -10,7 +10,8 @@ EXTENDS P2Bin
 
 CONSTANTS Dev,        \* subset of Devs
           MaxRecs,    \* items per case: 0..MaxRecs
-          Starts, UnitLens, GranSet, CpuSegs,   \* record shapes: start x units x gran x <<cpu, seg>>
+          Starts, UnitLens, GranSet, CpuSegs,   \* record shapes: start x units x gran x <<cpu, seg>>; an element
+                      \* <<cpu, 1, TRUE>> of CpuSegs is a record written with the SHORT header (seg, gran implied)
           EntryAddrs, \* entry records that may be mixed in ({} = none)
           Offsets,    \* {} = one input file; else the items are split over two files, the 2nd with (offset)
           Ranges,     \* set of <<rs, re>>, -1 = automatic
@@ -24,7 +25,13 @@ Pat(k, n) == [i \in 1..n |-> (k * 48 + i) % 256]
 
 Shapes == [k : {"D"}, start : Starts, units : UnitLens, gran : GranSet, cs : CpuSegs]
             \cup [k : {"E"}, addr : EntryAddrs]
+\* header form of a shape: <<cpu, 1, TRUE>> = one-byte header.  The item then carries no seg / gran (P2Bin.tla, module
+\* comment); its payload is `units` units of the granularity the processor type implies, so the record is well formed.
+ShortCS(cs) == Len(cs) = 3 /\ cs[3]
 MkItem(sh, k) == IF sh.k = "E" THEN [k |-> "E", addr |-> sh.addr]
+                 ELSE IF ShortCS(sh.cs)
+                 THEN [k |-> "D", cpu |-> sh.cs[1], start |-> sh.start, short |-> TRUE,
+                       data |-> Pat(k, sh.units * CFB!ImplicitGran(sh.cs[1], SegCode))]
                  ELSE [k |-> "D", cpu |-> sh.cs[1], seg |-> sh.cs[2], gran |-> sh.gran, start |-> sh.start,
                        data |-> Pat(k, sh.units * sh.gran)]
 MkItems(shs) == [k \in 1..Len(shs) |-> MkItem(shs[k], k)]
@@ -37,6 +44,19 @@ FileSplits(items) == IF Offsets = {} THEN {<<[off |-> 0, items |-> items]>>}
                              [off |-> d, items |-> SubSeq(items, k + 1, Len(items))]>> : k \in 0..Len(items), d \in Offsets}
 CaseSpace == {[files |-> fs, o |-> MkOpts(x)] :
                  fs \in UNION {FileSplits(MkItems(shs)) : shs \in UNION {[1..n -> Shapes] : n \in 0..MaxRecs}},
+                 x \in OptSpace}
+
+\* ---- HEADER FORMS x FAMILIES: code files as PBIND / ALINK write them.  One processor family per case (the ids in
+\* CpuSegs), every sequence of <= MaxRecs records each of which is a short-header CODE record, a long-header CODE
+\* record or a long-header record of another segment (the kinds in CpuSegs), long headers with the granularity the
+\* family has in that segment -- so the selected records share one granularity and the case is Definite whatever the
+\* order of the kinds: what a record means must not depend on the record standing before it.
+FormFams == {cs[1] : cs \in CpuSegs}
+FormShapes(fam) == {sh \in Shapes : sh.k = "D" /\ sh.cs[1] = fam
+                                     /\ (ShortCS(sh.cs) \/ sh.gran = CFB!ImplicitGran(fam, sh.cs[2]))}
+FormCases == {[files |-> fs, o |-> MkOpts(x)] :
+                 fs \in UNION {FileSplits(MkItems(shs)) :
+                                 shs \in UNION {[1..n -> FormShapes(fam)] : n \in 0..MaxRecs, fam \in FormFams}},
                  x \in OptSpace}
 
 Blank == [file |-> <<>>, used |-> <<>>, warn |-> FALSE, entry |-> -1, stale |-> FALSE]
@@ -75,6 +95,9 @@ StepClose ==
 
 Next == StepMeasure \/ StepOpen \/ StepProcess \/ StepClose
 Spec == Init /\ [][Next]_vars
+FormInit == /\ c \in FormCases
+            /\ pc = "measure" /\ idx = 1 /\ m = M0(c.o) /\ s = Blank /\ out = NoOut
+FormSpec == FormInit /\ [][Next]_vars
 
 -------------------------------------------------------------------------------
 Conforms      == (pc = "done" /\ Definite(c)) => Allowed(c, out)
@@ -91,6 +114,8 @@ UsedIsCoverage == (pc = "close" /\ Dev = {} /\ Definite(c)) =>
                     \A a \in m.start..m.stop :
                        (\E z \in 1..Len(s.used) : s.used[z].s <= a /\ a < s.used[z].s + s.used[z].l)
                          <=> (\E i \in DSel(c.o, Items) : Covers(Items[i], a))
+\* the records the program works on (ReadRecordHeader, Granularity) are the records the file describes (DRead)
+ReadAgrees == Flat(c) = DFlat(c)
 -------------------------------------------------------------------------------
 \* named constant values for the .cfg files (cfg syntax has neither tuples nor negative numbers)
 AllLanes   == Lanes
@@ -114,6 +139,16 @@ L_Thin     == Lanes \ {"ALL"}
 R_Explicit == {<<0, 3>>}
 CS_One     == {<<81, 1>>}
 CS_Mixed   == {<<81, 1>>, <<97, 1>>, <<81, 2>>}
+\* header forms x families, kinds per family: short CODE, long CODE, long DATA (, long IO).  Families: one of each
+\* class of toolutils.c Granularity() (81 default 1, 112 two, 118 four) + ALL five whose value depends on the segment
+\* (59 AVR, 26..29 PDK13..16); CS_FormsAll: every id the table names + defaults incl. the ends 1, 127 of the id range
+FormKinds(fams, segs) == {<<f, 1, TRUE>> : f \in fams} \cup {<<f, sg>> : f \in fams, sg \in segs}
+CS_Forms    == FormKinds({81, 112, 118, 59, 26, 27, 28, 29}, {1, 2})
+CS_FormsSeg == FormKinds({59, 26, 27, 28, 29}, {1, 2})
+CS_FormsAll == FormKinds({9, 118, 125, 54, 112, 113, 114, 116, 117, 119, 18, 109, 59, 26, 27, 28, 29, 81, 1, 127}, {1, 2, 7})
+R_Forms     == {<<-1, -1>>, <<0, 5>>}
+R_Forms3    == {<<-1, -1>>, <<0, 5>>, <<1, -1>>, <<2, 9>>}
+L_Forms     == {"ALL", "ODD", "WORD1"}
 H_None     == {0}
 H_All      == -4..4
 H_L2       == {2}
